@@ -16,7 +16,7 @@ from vlib import BUILD, Infra, build, log, next_replay_path, open_findings, run,
 import check_prog
 
 ALL = ("CtxPrompt NoStrandedCall NoLockWedge NoResidue FifoPerConn NoDoubleStart OneUnreleased AtMostOneResponse "
-       "ConfirmOnlyOneWay CloseTerminates NoPanic")
+       "ConfirmOnlyOneWay CloseTerminates NoPanic NoPermanentStrand NoPermanentResidue")
 W0 = ("CtxPrompt NoLockWedge FifoPerConn NoDoubleStart OneUnreleased AtMostOneResponse ConfirmOnlyOneWay CloseTerminates "
       "NoPanic")
 
@@ -42,16 +42,18 @@ CFG = {
     # a streaming call whose reply channel is filled by other nodes of its configuration while it is still
     # handing its request to this node (EnqueueBlocksOnOwnReplyChannel), with Close
     "stream-foreign": ("{1, 2}", "stream", "two", "two", 0, 1, "TRUE", "{1}", 2, ALL, 1, "TRUE"),
+    # the same without crash and Close (quick tier)
+    "stream-foreign-q": ("{1, 2}", "stream", "two", "two", 0, 1, "FALSE", "{1}", 2, ALL, 0, "TRUE"),
 }
 DESIGN = {
-    "quick": {"C08": ["two-sw-w0", "two-two-b0-noclose"], "C09": ["two-two-b0-noclose", "stream-two-e2", "three-two-nocrash", "stream-foreign"],
+    "quick": {"C08": ["two-sw-w0", "two-two-b0-noclose"], "C09": ["two-two-b0-noclose", "stream-two-e2", "three-two-nocrash", "stream-foreign-q"],
               "C10": ["two-two-b0-noclose", "sw-nsw-b1"], "C12": ["two-two-b0-e2", "sw-nsw-b1"]},
     "thorough": {"C08": ["two-sw-w0", "two-two-w0", "nsw-two-w0", "two-two-b1", "three-b0"],
                  "C09": ["two-two-b0", "stream-two-b0", "stream-stream-b1", "three-b0", "three-two-nocrash", "stream-foreign"],
                  "C10": ["two-two-b0", "two-two-b1", "three-b0"],
                  "C12": ["two-two-b0", "two-two-b1", "stream-two-b0", "sw-nsw-b1", "three-b1-close"]},
 }
-OWN = {"C08": "CtxPrompt", "C09": "NoStrandedCall NoLockWedge", "C10": "NoStrandedCall NoPanic", "C12": "CloseTerminates"}
+OWN = {"C08": "CtxPrompt", "C09": "NoPermanentStrand NoStrandedCall NoLockWedge", "C10": "NoStrandedCall NoPanic", "C12": "CloseTerminates"}
 # free workloads: (runs, goroutines, calls per goroutine)
 M3 = {"quick": {"C09": (3, 6, 40), "C08": (2, 6, 30)}, "thorough": {"C09": (30, 8, 80), "C08": (15, 8, 60)}}
 # free workloads while servers crash and restart at random (runs, goroutines, calls)
